@@ -189,7 +189,51 @@ func c13Run(r *runCtx, id string, f []string) {
 	}
 	ctx, cancel := context.WithCancel(context.Background())
 	defer cancel()
-	e, _ := exporter.New(ctx, s, opts...)
+	var e *exporter.Exporter
+	if len(f) > 4 && f[4] != "0" {
+		// the exporter outlives program reloads: it has scraped an earlier version of every metric
+		// (same name, program, kind, type and source; the keys renamed, or one key fewer or more)
+		// before the store came to hold what it holds now
+		prev := make([]sMetric, len(ms))
+		for i, m := range ms {
+			pm := m
+			pm.keys = nil
+			for _, k := range m.keys {
+				pm.keys = append(pm.keys, k+"old")
+			}
+			switch {
+			case f[4] == "2" && len(pm.keys) > 0:
+				pm.keys = pm.keys[:len(pm.keys)-1]
+			case f[4] == "2":
+				pm.keys = []string{"extra"}
+			}
+			pm.lsets = nil
+			for j, l := range m.lsets {
+				nl := l
+				nl.labels = make([]string, len(pm.keys))
+				for q := range nl.labels {
+					nl.labels[q] = fmt.Sprintf("p%d", j)
+				}
+				pm.lsets = append(pm.lsets, nl)
+				if len(pm.keys) == 0 {
+					break
+				}
+			}
+			prev[i] = pm
+		}
+		if ps, _, perr := buildStore(prev); perr == nil {
+			e, _ = exporter.New(ctx, ps, opts...)
+			var warm bytes.Buffer
+			_ = e.Write(&warm)
+			for _, m := range real {
+				_ = ps.Add(m)
+			}
+			s = ps
+		}
+	}
+	if e == nil {
+		e, _ = exporter.New(ctx, s, opts...)
+	}
 	var buf bytes.Buffer
 	werr := e.Write(&buf)
 	var got []string
@@ -273,6 +317,10 @@ func init() {
 			}
 			for i := 0; i < n; i++ {
 				ms := genStore(g.r, storeGenOpts{maxMetrics: 6, unsortedBuckets: true})
+				if i%3 == 2 {
+					g.emit("prom", strconv.Itoa(g.r.intn(2)), strconv.Itoa(g.r.intn(2)), encodeStore(ms), strconv.Itoa(1+g.r.intn(2)))
+					continue
+				}
 				g.emit("prom", strconv.Itoa(g.r.intn(2)), strconv.Itoa(g.r.intn(2)), encodeStore(ms))
 			}
 		},
